@@ -33,6 +33,7 @@ import (
 type bindingRequest struct {
 	timestamp       time.Time
 	transactionID   [stun.TransactionIDSize]byte
+	source          netip.AddrPort // Local candidate address the request was sent from.
 	destination     netip.AddrPort
 	networkType     NetworkType // Transport the request was sent over; destination alone omits it.
 	isUseCandidate  bool
@@ -1617,6 +1618,7 @@ func (a *Agent) sendBindingRequest(msg *stun.Message, local, remote Candidate) {
 	a.pendingBindingRequests = append(a.pendingBindingRequests, bindingRequest{
 		timestamp:       time.Now(),
 		transactionID:   msg.TransactionID,
+		source:          local.addrPort(),
 		destination:     remote.addrPort(),
 		networkType:     remote.NetworkType(),
 		isUseCandidate:  msg.Contains(stun.AttrUseCandidate),
